@@ -331,6 +331,12 @@ func (s *Store[H]) DeleteRange(ctx context.Context, from, to uint64) error {
 		return fmt.Errorf("header/store: reading tail: %w", err)
 	}
 
+	// the head may have been advanced meanwhile by headers that are still pending: write them out
+	// as well, so that every header up to the head loaded above is in the datastore to be deleted
+	if err := s.Sync(ctx); err != nil {
+		return err
+	}
+
 	// sanity check range parameters
 	if from >= to {
 		return fmt.Errorf(
